@@ -102,7 +102,32 @@ fn explore<const D: usize>(id: &str, pts: &[Vec<f64>], g: usize, fam: &str, dept
     }
 }
 
+/// the two triangulations of a planar convex quadrilateral with two apexes, written down by hand
+/// and loaded through the public serde interface (no construction, hence no dependence on the
+/// random stream): one diagonal is Delaunay, the other is not and every violating facet of it is
+/// unflippable by a k = 2 move (four coplanar points) - the state in which a repair that skips
+/// its postcondition reports Ok.  Also a scaled and a sheared copy.
+fn stuck_quads(rng: &mut Rng, out: &mut Out) {
+    let base: Vec<Vec<f64>> = vec![vec![3.0, 1.0, 0.0], vec![-1.0, 4.0, 0.0], vec![-5.0, -1.0, 0.0], vec![1.0, -3.0, 0.0], vec![0.0, 0.0, 10.0], vec![0.0, 0.0, -10.0]];
+    let variants: Vec<(&str, Vec<Vec<f64>>)> = vec![
+        ("base", base.clone()),
+        ("scaled", base.iter().map(|p| p.iter().map(|x| x * 0.25).collect()).collect()),
+        ("sheared", base.iter().map(|p| vec![p[0] + p[2] / 8.0, p[1], p[2]]).collect()),
+    ];
+    for (vn, pts) in variants {
+        for (name, cells) in [("ac", vec![vec![0usize, 1, 2, 4], vec![0, 2, 3, 4], vec![0, 1, 2, 5], vec![0, 2, 3, 5]]),
+                              ("bd", vec![vec![0usize, 1, 3, 4], vec![1, 2, 3, 4], vec![0, 1, 3, 5], vec![1, 2, 3, 5]])] {
+            let Some(dt) = tri::load_complex::<3>(&pts, &cells, rng) else { continue };
+            for advanced in [false, true] {
+                let mut w = World { dt: dt.clone(), ids: crate::common::Ids::default(), offered: vec![], removed: vec![], next_data: 900, g: 1, check_on: false, repair_on: false, had_removal: false, had_flip: true, stale_cells: vec![] };
+                repair_and_emit::<3>(&format!("sq_{vn}_{name}_{}", advanced as u8), &mut w, advanced, "stuck_quad", 1, out);
+            }
+        }
+    }
+}
+
 pub fn run(cfg: &Cfg, rng: &mut Rng, out: &mut Out) {
+    stuck_quads(&mut rng.fork(), out);
     // flip neighbourhoods of small 3-D inputs: a planar convex quadrilateral with two apexes (either
     // diagonal gives a valid complex, only one is Delaunay, and going from one to the other needs
     // a 4-to-4 flip), and small general-position sets
